@@ -74,7 +74,7 @@ def rule_key(ctx):
                 recv = show(callee.self_val) if isinstance(callee, Fn) else "?"
                 arg = e.data["args"][0] if e.data["args"] else None
                 applied.append((recv, show(arg) if arg is not None else None))
-            other = [e for e in pa.events if e.kind == "call" and not is_call(e.data["term"], method="set_value_from_message") and not is_call(e.data["term"], method="from_new_message") and not is_call(e.data["term"], method="get") and not (isinstance(e.data["callee"], Term) and e.data["callee"].op == "global") and "logger" not in show(e.data["term"]) and "logging." not in show(e.data["term"]) and "exception" not in show(e.data["term"])]
+            other = [e for e in pa.events if e.kind == "call" and not e.data.get("inlined") and not is_call(e.data["term"], method="set_value_from_message") and not is_call(e.data["term"], method="from_new_message") and not is_call(e.data["term"], method="get") and not (isinstance(e.data["callee"], Term) and e.data["callee"].op == "global") and "logger" not in show(e.data["term"]) and "logging." not in show(e.data["term"]) and "exception" not in show(e.data["term"])]
             stores = [e for e in pa.events if e.kind == "store" and e.data.get("attr") is not None]
             valid = {"V22": ("A",)}.get(target, ("A", "B"))
             if kind_of.get(target) == mk:
